@@ -40,6 +40,8 @@ def real_matrices(n, pos, kind="str"):
             explicit = first.__dict__.get("reference", first.__dict__.get("omit")) is not None
             try:
                 getattr(first, meth)(list(other))
+                if n >= 2:
+                    getattr(first, meth)([levels[pos - 1]] + [x for x in levels if x != levels[pos - 1]][::-1])   # as many levels, the chosen one elsewhere
                 again = getattr(first, meth)(list(levels))
                 fresh = getattr(cls(levels[pos - 1]) if explicit else cls(), meth)(list(levels))
                 out["reuse_ok"] = out["reuse_ok"] and np.array_equal(np.asarray(again.matrix), np.asarray(fresh.matrix)) and list(again.labels) == list(fresh.labels)
